@@ -71,7 +71,7 @@ def io_model(rnd, stream):
     return m
 
 
-REPAIR_NAMES = ["1abc", ".dot", "9", "a*b", "a^2", "a[1]", "x+y", "a-b", "a<b", "a>b", "a=b", "a:b", "2e5", "e9", "E12x", "a\\b"]
+REPAIR_NAMES = ["inf", "Inf", "INFINITY", "infinity", "1abc", ".dot", "9", "a*b", "a^2", "a[1]", "x+y", "a-b", "a<b", "a>b", "a=b", "a:b", "2e5", "e9", "E12x", "a\\b"]
 CLASH_NAMES = ["x1", "x2", "c1", "c2", "c3", "obj", "x_1", "c_2", "C1", "X3"]
 
 
@@ -113,6 +113,16 @@ def gen_case(prop, tier, seed, stream, k):
             if cand not in [x.name for x in m.cols + m.rows]:
                 o.name = cand
                 repaired = repaired or cand in REPAIR_NAMES
+        if rnd.random() < 0.35:
+            # a name the writer has to replace (the replacement is built from the item's index) next to a legal-looking name that
+            # is exactly that index in decimal: the two must still come out different
+            for group in (m.cols, m.rows):
+                if len(group) >= 2 and rnd.random() < 0.6:
+                    i, j = rnd.sample(range(len(group)), 2)
+                    if str(i) not in [x.name for x in m.cols + m.rows]:
+                        group[i].name = rnd.choice(["b*c", "a^%d" % i, "p[%d]" % i, "u+v", "q<r"]) + ("" if rnd.random() < 0.5 else str(rnd.randint(0, 99)))
+                        group[j].name = str(i)
+                        repaired = True
     fmt = "LP" if prop == "C08" else "MPS"
     files = {}
     if stream == "fromfile":
